@@ -10,8 +10,6 @@ NOT_DECIDED_CUBIC_INVERSE = ("cubic_spline(inverse=True): the trigonometric thre
 def Ks(tier, fam):
     if tier == "quick":
         return (1, 2, 3)
-    if fam == "quadratic":
-        return (1, 2, 3)       # the area lemma of the quadratic knots (a sum of K trapezoids normalised to 1) stays `unknown` in z3 for K >= 4: not claimed
     return (1, 2, 3, 4, 5, 8) if fam in ("rq", "linear") else (1, 2, 3, 4, 5)
 
 
